@@ -58,8 +58,9 @@ func (t *mixedTable) insert(k, v Value) {
 func (t *mixedTable) reset(k, v Value) (wasSet bool) {
 	i, ok := ToIntNoString(k)
 	if ok {
-		ok, wasSet = t.array.resetValue(i, v)
-		if ok {
+		var inArray bool
+		inArray, wasSet = t.array.resetValue(i, v)
+		if inArray {
 			return
 		}
 	}
